@@ -4,11 +4,11 @@
 package px
 
 import (
-	"sort"
 	"fmt"
 	"github.com/dcaiafa/lox/verif/internal/root"
 	"os"
 	"path/filepath"
+	"sort"
 	"strings"
 
 	"github.com/dcaiafa/lox/internal/parsergen/lr1"
@@ -81,6 +81,7 @@ type Built struct {
 	ProdRule   []string   // production index -> rule name
 	ProdTerms  [][]string // production index -> term names
 	ProdHasErr []bool
+	ProdErrAt  [][]bool // production index -> term position -> the term is the @error terminal (by identity: a rule may be NAMED ERROR)
 	RuleNames  []string // rule index -> name
 	TermNames  []string // terminal index -> name
 }
@@ -117,6 +118,7 @@ func Build(ws *pipe.Workspace, g *gen.Grammar, c *ctypes.Carrier) *Built {
 
 func BuildSpec(ws *pipe.Workspace, g *gen.Grammar, spec *pipe.Spec, c *ctypes.Carrier) *Built {
 	b := &Built{G: g}
+	Pad = g.PadToks
 	b.Res = ws.RunFast(spec, nil)
 	r := b.Res
 	switch {
@@ -213,13 +215,16 @@ func (b *Built) fromGrammar(g *lr1.Grammar) {
 	for _, p := range g.Prods {
 		b.ProdRule = append(b.ProdRule, p.Rule.Name)
 		var ts []string
+		var ea []bool
 		he := false
 		for _, t := range p.Terms {
 			ts = append(ts, t.TermName())
+			ea = append(ea, t == lr1.Term(g.ErrorTerminal))
 			if t == lr1.Term(g.ErrorTerminal) {
 				he = true
 			}
 		}
+		b.ProdErrAt = append(b.ProdErrAt, ea)
 		b.ProdTerms = append(b.ProdTerms, ts)
 		b.ProdHasErr = append(b.ProdHasErr, he)
 	}
@@ -240,14 +245,19 @@ func (b *Built) Install(c *ctypes.Carrier) {
 }
 
 // Lox terminal index of harness token i (EOF=0, ERROR=1, then declaration order).
-func LoxTok(i int) int { return i + 2 }
+func LoxTok(i int) int { return i + 2 + Pad }
+
+// Pad is the number of unused tokens the grammar built last declares before its
+// own (gen.Grammar.PadToks): the explorers of a worker handle one grammar at a
+// time, and every exploration (and replay) starts with Build.
+var Pad int
 
 // RefSym converts a lox terminal index to the cfgref terminal symbol.
 func RefSym(loxTerm int) int {
 	if loxTerm == 1 {
 		return cfgref.ErrSym
 	}
-	return loxTerm - 2 + cfgref.TokOff
+	return loxTerm - 2 - Pad + cfgref.TokOff
 }
 
 func sortedKeys(m map[string][]int64) []string {
